@@ -108,6 +108,20 @@ func runC06(c *Ctx, prop string) {
 				if mi, ok := src.(*ssa.MakeInterface); ok {
 					src = mi.X
 				}
+				// the file variable captured by a closing function literal lives in a cell: read the one value stored there
+				if ld, ok := src.(*ssa.UnOp); ok && ld.Op == token.MUL {
+					if al, ok := ld.X.(*ssa.Alloc); ok {
+						var stored []ssa.Value
+						for _, r := range refs(al) {
+							if st, ok := r.(*ssa.Store); ok && st.Addr == ssa.Value(al) {
+								stored = append(stored, st.Val)
+							}
+						}
+						if len(stored) == 1 {
+							src = stored[0]
+						}
+					}
+				}
 				fromOpen := false
 				if ex, ok := src.(*ssa.Extract); ok && ex.Index == 0 {
 					if oc, ok := ex.Tuple.(*ssa.Call); ok && (calleeName(&oc.Call) == "os.Open" || calleeName(&oc.Call) == "os.OpenFile") {
